@@ -77,6 +77,10 @@ Conforms(e) ==
   CASE e.op = "pow.Score" -> ScoreEvent(e)
     [] e.op = "pow.Mine" -> MineEvent(e)
     [] e.op = "pow.check" -> Check1Event(e)
+    [] e.op = "pow.required" ->        \* a hash with the z zeros Mine looks for scores at least the target
+         /\ e.out.panic = "" /\ e.out.z \in 0..243
+         /\ Score1Conforms(e.out.s_z, e.out.z, e.in.len)
+         /\ FloatGe(e.out.s_z, e.in.target)
     [] e.op = "pow2.Score" -> Score2Event(e)
     [] e.op = "pow2.Mine" -> Mine2Event(e)
     [] e.op = "pow2.check" -> Check2Event(e)
